@@ -124,7 +124,13 @@ pub fn run_case(c: &Sexp) -> R<Sexp> {
         },
         _ => match crate::ops_solve::run_case(c) {
             Some(r) => r,
-            None => Err(format!("unknown case: {}", c.to_text())),
+            None => match crate::ops_reader::run_case(c) {
+                Some(r) => r,
+                None => match crate::ops_goals::run_case(c) {
+                    Some(r) => r,
+                    None => Err(format!("unknown case: {}", c.to_text())),
+                },
+            },
         },
     }
 }
